@@ -484,6 +484,9 @@ func sysuStream(g *hx.Gen, id int) hx.Case {
 		e := ScriptEntry{Host: h, Resp: genOriginResp(g, allStatuses)}
 		if g.Chance(25) {
 			e.Resp.ConnectErrors = 1 + g.Intn(4)
+			// (half of the failing destinations read the request before they drop the connection: invisible
+			//  to the model - a failed attempt leaves nothing behind - unless a repeat forgets to re-arm the body)
+			e.Resp.DrainOnFail = g.Bool()
 		}
 		if h == "c0.test" && g.Chance(4) {
 			// a copy destination that sends its headers and then never finishes its body
